@@ -107,6 +107,7 @@ def specResend (ws : List String) : String :=
 def step (_ : Unit) (ws : List String) : Unit × String :=
   match ws with
   | "rt" :: r => ((), answer r)
+  | "rtx" :: _ => ((), "probe")   -- MULTI … EXEC blocks in cluster batches: probed by the harness only, not modelled
   | "!resend" :: r => ((), specResend r)
   | _ => ((), "bad-op")
 
